@@ -12,12 +12,12 @@ CHECKS = {
         design="2/C02"),
     "C03": dict(level="fault_enumeration", engine="hcore",
         technique="runtime monitoring: integrity oracle joining every hand-over with the per-link delivery log (authentic, member, at most once, non-empty) under the same Byzantine catalogue and schedule enumeration as C02",
-        text="Each hand-over to the backend is joined with the log of what was actually delivered on the link from the attributed party to this party (unique payloads make the join exact); multiplicity per (sender, round) must be <= 1, the message non-empty, point-to-point messages handed over as received. Same executions as C02 plus replay/duplication scenarios.",
+        text="Each hand-over to the backend is joined with the log of what was actually delivered on the link from the attributed party to this party (unique payloads make the join exact); multiplicity per (sender, round) must be <= 1, the message non-empty, point-to-point messages handed over as received. Same executions as C02 plus replay/duplication scenarios. A concurrent arm hands both versions of an equivocating participant's broadcast to every honest node from two goroutines at once, with a log sink that is slow exactly at the reliable broadcast's registration messages.",
         note="Trusted: harness recorder and simulated network; same residue as C02.",
         design="2/C03"),
     "C04": dict(level="exploration", engine="hcore",
         technique="runtime monitoring: exactly-once totality oracle at quiescence of all-honest runs; all inequivalent delivery interleavings by sleep-set DFS for small configurations, sampled overtaking schedules beyond",
-        text="At quiescence of an all-honest run the multiset of hand-overs must equal the script (every broadcast once at every other party, every point-to-point message once at its addressee); a flagged equivocation shows up as a missing later hand-over because all rounds are in flight together. N=2..5(6), several concurrent senders, 1..3 rounds, acknowledgements overtaking payloads counted. Orchestrated configurations include two-byte party identifiers.",
+        text="At quiescence of an all-honest run the multiset of hand-overs must equal the script (every broadcast once at every other party, every point-to-point message once at its addressee); a flagged equivocation shows up as a missing later hand-over because all rounds are in flight together. N=2..5(6), several concurrent senders, 1..3 rounds, acknowledgements overtaking payloads counted. Orchestrated configurations include two-byte party identifiers. A third unit lets sessions run to completion (the backend's completing OnMsg returns only after the call returned; every fifth case all parties broadcast byte-identical payloads) and judges a missed deadline by the silence of the event log at that moment.",
         note="Trusted: harness recorder and network; sleep-set independence (deliveries at different receivers commute) relies on parties sharing no state.",
         design="2/C04"),
     "C14": dict(level="exploration", engine="hcore",
@@ -27,7 +27,7 @@ CHECKS = {
         design="2/C14"),
     "C15": dict(level="exploration", engine="hcore",
         technique="runtime monitoring against a reference model written from the statement: generated histories (bursts, topic churn, virtual epoch ticks, idle periods, GC-driving sends) on the real msg.Box with small injected limits; racing first-Send schedules replayed under the controlled scheduler followed by a throttle probe",
-        text="The model predicts for every buffered message must-deliver / must-not-deliver / either (bands: limit..limit+1, expired-but-not-yet-swept) and is compared with what each Send releases; a panic on excess traffic kills the child and is reported by the parent. Virtual epoch clock (hand-made ticker) makes expiry deterministic; three real-clock histories cover the real ticker. A second unit replays each interleaving of {buffered; receive || first Send} on three topics and then demands that the sender is still served. A conservation monitor bounds from the released messages alone how many topics a sender held at one instant (limit+1 at most).",
+        text="The model predicts for every buffered message must-deliver / must-not-deliver / either (bands: limit..limit+1, expired-but-not-yet-swept) and is compared with what each Send releases; a panic on excess traffic kills the child and is reported by the parent. Virtual epoch clock (hand-made ticker) makes expiry deterministic; three real-clock histories cover the real ticker. A second unit replays each interleaving of {buffered; receive || first Send} on three topics and then demands that the sender is still served. A conservation monitor bounds from the released messages alone how many topics a sender held at one instant (limit+1 at most). Excess traffic on topics of 0..40 bytes must be dropped without failing the call; the topic limit is also exercised by concurrent receives under the controlled scheduler.",
         note="Trusted: the reference model (from the statement, not from the code); per-topic limit constant 100 as documented in msgbox.go; expiry judged only after three GC opportunities spaced by more than the expiry.",
         design="2/C15"),
     "C06": dict(level="exploration", engine="hcore",
@@ -37,7 +37,7 @@ CHECKS = {
         design="2/C06"),
     "C12": dict(level="exploration", engine="hcore",
         technique="runtime monitoring of API-call histories on one cluster of real schemes: residue-free reference (every operation's outcome depends on the operation alone), verifPoint holds to make the cleanup/registration windows deterministic, late-replay and foreign-traffic injection, silent-mode re-use sub-oracle with known-finding signatures",
-        text="PRNG histories (8..40 operations, 3..5 nodes, 2..4 topics; loud with real disc.Member, barrier and silent mode) of successful, too-few-callers and cancelled KeyGen/Sign calls, cancellation with the continuation parked at a verif point, Sign re-issued the moment the previous one returned (continuation held after the result hand-off), two topics at once, duplicate Sign on a live topic (first session must survive), replay of a finished session's whole traffic (no hand-over, no transmission may result), traffic of a member outside the session and of a non-member during a live session (exactly-once hand-over must still hold). A 'Programming error' panic kills the child and is reported by the parent. Cancellation is also parked inside the protocol instance's Init (between instance creation and handler registration).",
+        text="PRNG histories (8..40 operations, 3..5 nodes, 2..4 topics; loud with real disc.Member, barrier and silent mode) of successful, too-few-callers and cancelled KeyGen/Sign calls, cancellation with the continuation parked at a verif point, Sign re-issued the moment the previous one returned (continuation held after the result hand-off), two topics at once, duplicate Sign on a live topic (first session must survive), replay of a finished session's whole traffic (no hand-over, no transmission may result), traffic of a member outside the session and of a non-member during a live session (exactly-once hand-over must still hold). A 'Programming error' panic kills the child and is reported by the parent. Cancellation is also parked inside the protocol instance's Init (between instance creation and handler registration). The context-consultation unit of C11 runs here with a follow-up session on the same topic (residue test); two Sign calls are also brought into the admission step together through the consumer-supplied synchroniser factory; a key generation's second synchronisation is made to fail and its traffic replayed late.",
         note="Trusted: harness recorder/network; silent-mode histories use fresh topics, re-use in silent mode is decided by the c12silent unit whose two failures are recorded as known findings (no small sound repair). Deadlines are watchdogs: a history that hits one is replayed with 5x deadlines before being judged.",
         design="2/C12"),
     "C07": dict(level="exploration", engine="hcore",
@@ -47,7 +47,7 @@ CHECKS = {
         design="2/C07"),
     "C13": dict(level="exploration", engine="hcore+hcrypto+hbinance",
         technique="runtime monitoring: completion + exactly-once totality oracle on scripted full-stack sessions whose identifiers are drawn along the byte boundaries of the 16-bit range (all pairs/triples in thorough), rounds 0..127, loud and silent mode",
-        text="Sessions of size 2 and 3 (3 makes acknowledgements matter) with node = party identifiers from {0,1,2,127,128,254,255,256,257,511,512,513,32767,32768,65279,65280,65534,65535} and PRNG identifiers elsewhere; key generation then signing with two rounds cycling through 0..127; every session must complete and hand every message over exactly once, i.e. every identifier, view, round and digest one party encoded was decoded to the same value by its peers. Disc-only sessions of 32 members tile the whole 16-bit range (thorough: all 2048 tiles, every identifier value takes part once).",
+        text="Sessions of size 2 and 3 (3 makes acknowledgements matter) with node = party identifiers from {0,1,2,127,128,254,255,256,257,511,512,513,32767,32768,65279,65280,65534,65535} and PRNG identifiers elsewhere; key generation then signing with two rounds cycling through 0..127; every session must complete and hand every message over exactly once, i.e. every identifier, view, round and digest one party encoded was decoded to the same value by its peers. Disc-only sessions of 32 members tile the whole 16-bit range (thorough: all 2048 tiles, every identifier value takes part once). A views unit compares rather than round-trips: honest surplus sessions and a Byzantine plan over identifier families that a sloppy comparison could confuse (UTF-16 surrogates, same low/high byte, byte-swapped, decimal digits split elsewhere).",
         note="Trusted: harness recorder/network. BLS/PS/EdDSA key generations with boundary and PRNG 16-bit party identifiers are followed by signing/verifying with objects re-created ONLY from the serialised stored data / ThresholdPK() bytes (units c13crypto, c13adapters). Identifier 0 is not used with the tss-lib adapters (the party key is the Shamir evaluation point).",
         design="2/C13"),
     "C01": dict(level="exploration", engine="hcrypto",
@@ -57,12 +57,12 @@ CHECKS = {
         design="2/C01"),
     "C05": dict(level="fault_enumeration", engine="hcrypto",
         technique="runtime monitoring of BLS/PS key generations in which one participant is a real backend behind a perturbing wrapper (strategy catalogue x victim sets x (n,t) incl. t=n x delivery orders); oracles: consistent-or-error, joint signing of honest completers under the reported key, reveal-after-all-commitments from the event order, no panic/hang",
-        text="Sixteen strategies (off-polynomial share received, flipped outgoing share on x and on each y_j, altered commitment/reveal, copy of an honest party's key, malformed/duplicated/withheld share, commitment, reveal, reveal before commitment), every single honest victim and all honest parties as victims. The context is cancelled at quiescence determined from goroutine wait states (no timing guess). The disclosure clause is also judged by content: no 32-byte window of the key an honest party finally reveals may occur in anything it transmitted before it held all commitments.",
+        text="Sixteen strategies (off-polynomial share received, flipped outgoing share on x and on each y_j, altered commitment/reveal, copy of an honest party's key, malformed/duplicated/withheld share, commitment, reveal, reveal before commitment), every single honest victim and all honest parties as victims. The context is cancelled at quiescence determined from goroutine wait states (no timing guess). The disclosure clause is also judged by content: no 32-byte window of the key an honest party finally reveals may occur in anything it transmitted before it held all commitments. Orchestrator level: a second node of the misbehaving party that is not a participant shows a victim another valid commitment and key while the two nodes vouch for each other (built from re-routed real transmissions).",
         note="Trusted: tag-byte + body layout of share messages (guarded by a re-encoding self-check); the backends' own ClassifyMsg for message classes; equivocation of broadcast-class messages is the reliable broadcast's subject (C02) and is not repeated here.",
         design="2/C05"),
     "C08": dict(level="exploration", engine="hcrypto",
         technique="runtime monitoring: the four calls of the blind-signature pipeline (TPS.Sign, UnBlind, ProveKnowledgeOfSignature, Verifier.Verify) must succeed for every generated configuration, message vector and EVERY signer subset in PRNG order; public material byte-identical",
-        text="PS key generations (directly wired; every third through real Loud/Silent schemes) for 2<=t<=n<=5 (6), identifier sets 1..n, {1,2,4,..}, {10,20,..}, PRNG 16-bit; L=1..4; vectors with empty, equal, random and 64 KiB entries.",
+        text="PS key generations (directly wired; every third through real Loud/Silent schemes) for 2<=t<=n<=5 (6), identifier sets 1..n, {1,2,4,..}, {10,20,..}, PRNG 16-bit; L=1..4; vectors with empty, equal, random and 64 KiB entries. One in-memory request value (ps.Blind) is signed by three signers twice over.",
         note="Trusted: the library's own verifier as oracle for completeness (soundness is C09's subject).",
         design="2/C08"),
     "C09": dict(level="exploration", engine="hcrypto",
@@ -72,12 +72,12 @@ CHECKS = {
         design="2/C09"),
     "C11": dict(level="fault_enumeration", engine="hcore+hcrypto",
         technique="crash-point enumeration with an outcome oracle: every peer muted after its k-th transmission, every single transmission withheld, context cancelled at quiescence (logical time), by deadline with PRNG phase, or INSIDE a party's k-th send call; every call must return (error, or nil only with a complete/consistent session) within a watchdog, never panic",
-        text="Scripted backend through real schemes (barrier, silent, loud with real disc.Member; KeyGen and Sign; unusable stored data), directly wired BLS/PS key generations, and BLS/PS key generation through real Loud/Silent schemes with one node silent after its k-th transmission under a deadline (a panic in a background goroutine after KeyGen returned kills the child and is reported by the parent). A hang is replayed alone with a 5x watchdog before it is reported. Sign through real schemes with the real BLS/PS signers and stored data of every kind (none, garbage, truncated, fewer parties, other scheme, other key generation), followed by further calls on the same objects.",
+        text="Scripted backend through real schemes (barrier, silent, loud with real disc.Member; KeyGen and Sign; unusable stored data), directly wired BLS/PS key generations, and BLS/PS key generation through real Loud/Silent schemes with one node silent after its k-th transmission under a deadline (a panic in a background goroutine after KeyGen returned kills the child and is reported by the parent). A hang is replayed alone with a 5x watchdog before it is reported. Sign through real schemes with the real BLS/PS signers and stored data of every kind (none, garbage, truncated, fewer parties, other scheme, other key generation), followed by further calls on the same objects. Two further units run one caller under a context that ends at its k-th consultation (Err/Done call), for every k: scripted sessions through real schemes and directly wired BLS/PS key generations; plus refused duplicates followed by deadlines and further calls, and contexts that are over before the call.",
         note="Goroutine leaks that never surface as a blocked caller are not detected. tss-lib adapters with short deadlines are added by the hbinance driver when built.",
         design="2/C11"),
     "C18": dict(level="exploration", engine="hcrypto",
         technique="runtime monitoring: (i) secrets dealt with the exported SSS.Gen, shares wrapped as stored data, EVERY subset of size >= t of every (n,t) up to a bound combined through the public API and verified under g2^P(0) (subset spaces enumerated completely); (ii) key generations with exactly one off-polynomial party key (every position, BLS x / PS x and y_j): all abort for t<n, all accept for t=n and delta=0",
-        text="BLS n<=7 (9), PS n<=5 (6) for (i); BLS n<=5 (6), PS n<=4 (5) for (ii). A random evaluation decides each polynomial identity up to 2^-240, as the property says. Large committees with high thresholds (up to n=100) with extreme and PRNG subsets.",
+        text="BLS n<=7 (9), PS n<=5 (6) for (i); BLS n<=5 (6), PS n<=4 (5) for (ii). A random evaluation decides each polynomial identity up to 2^-240, as the property says. Large committees with high thresholds (up to n=100) with extreme and PRNG subsets. A third unit runs one honest party under a context that ends at its k-th consultation while another party's key is off the polynomial: no party may return key material, wherever the context ends.",
         note="Trusted: mathlib group arithmetic; exported SSS types.",
         design="2/C18"),
     "C16": dict(level="fault_enumeration", engine="hcore",
@@ -92,7 +92,7 @@ CHECKS = {
         design="2/C17"),
     "C19": dict(level="exploration", engine="hbinance",
         technique="runtime monitoring of complete tss-lib runs through the adapters with a recording sendMsg: classification table oracle (receiver's ClassifyMsg vs tss-lib's routing flag, non-zero and distinct rounds), independent signature verification (crypto/ed25519, crypto/ecdsa) over boundary digests, digest mix-up sessions, re-attribution and outsider-injection sessions with safety outcome oracles",
-        text="EdDSA (n,t) in {(2,1),(3,1),(3,2),(4,2),(4,3)} with identifier sets 1..n, gaps and PRNG 16-bit; ECDSA (2,1) quick, (3,1),(3,2) thorough; EdDSA key generation and orchestrated signing through real Loud/Silent schemes (this also decides C01's orchestrated-signing clause). Outsiders whose identifiers lie between the members' re-send every genuine message first: the session must complete as if nothing happened. Disguised envelopes (type field twice, payload twice, opposite field order) must be classified as the library type tss-lib's own parser decodes them to.",
+        text="EdDSA (n,t) in {(2,1),(3,1),(3,2),(4,2),(4,3)} with identifier sets 1..n, gaps and PRNG 16-bit; ECDSA (2,1) quick, (3,1),(3,2) thorough; EdDSA key generation and orchestrated signing through real Loud/Silent schemes (this also decides C01's orchestrated-signing clause). Outsiders whose identifiers lie between the members' re-send every genuine message first: the session must complete as if nothing happened. Disguised envelopes (type field twice, payload twice, opposite field order) must be classified as the library type tss-lib's own parser decodes them to. The same messages are classified by six goroutines at once on one adapter instance; a member re-labels its broadcast envelopes with another type-URL prefix in a live session (honest completion would mean the library consumed broadcast-class messages that bypassed the reliable broadcast).",
         note="tss-lib v2.0.2 wire bytes carry no embedded sender, so the 'embedded sender differs' clause cannot occur on the wire; the consequence it protects (no message credited to anyone but its transport sender) is what is decided. Trusted: crypto/ed25519, crypto/ecdsa.",
         design="2/C19"),
     "C20": dict(level="other", engine="hcore+hcrypto+hbinance (-race builds)",
